@@ -143,6 +143,9 @@ def fixed_scenarios():
         {'name': 'F2-offer-leaves-zone', 'nodes': n3, 'twin': 'offers', 'ops': [
             {'op': 'alloc', 'id': 1, 'size': 20, 'aff': 3, 'prio': R}, {'op': 'offer', 'id': 9, 'size': 1, 'aff': 7, 'prio': 1024},
             {'op': 'alloc', 'id': 2, 'size': 20, 'aff': 6, 'prio': R}]},
+        {'name': 'reservations-collide', 'nodes': n3, 'ops': [
+            {'op': 'alloc', 'id': 1, 'size': 3, 'aff': 1, 'prio': R}, {'op': 'alloc', 'id': 2, 'size': 8, 'aff': 1, 'prio': R},
+            {'op': 'alloc', 'id': 3, 'size': 2, 'aff': 1, 'prio': 32766}, {'op': 'alloc', 'id': 4, 'size': 8, 'aff': 1, 'prio': R}]},
         {'name': 'F2-realloc-leaves-zone', 'nodes': n5, 'twin': 'all', 'ops': [
             {'op': 'alloc', 'id': 1, 'size': 20, 'aff': 3, 'prio': R}, {'op': 'alloc', 'id': 9, 'size': 1, 'aff': 7, 'prio': 1024},
             {'op': 'realloc', 'id': 9, 'nodes': 8, 'types': 0}, {'op': 'alloc', 'id': 1, 'size': 1, 'aff': 1, 'prio': 1024},
@@ -163,6 +166,9 @@ def run_harness(chk, scenarios, tag, timeout=600):
         return None, out
     res = [json.loads(l) for l in open(p)]
     internal = [l for l in out.splitlines() if 'internal error' in l]
+    # a history whose operation did not return ends the harness run: the rest was not executed
+    for k in range(len(res), len(scenarios)):
+        res.append({'name': scenarios[k].get('name', '?'), 'error': 'not-run', 'ops': [], 'steps': []})
     return res, internal
 
 
@@ -678,8 +684,11 @@ def run_check(prop, tier, seed, replay=None):
     # ---------------- oracle
     tot, distinct, nontrivial = {}, set(), 0
     for sc, r in pairs + exh_pairs:
+        if r.get('error') == 'not-run':
+            continue
         if r.get('error'):
-            chk.violation('harness-error:' + r['error'].split(':')[0], '%s: %s' % (r['name'], r['error']), explicit(sc, r))
+            sig = 'operation-did-not-terminate' if r['error'].startswith('timeout') else 'harness-error:' + r['error'].split(':')[0]
+            chk.violation(sig, '%s: %s (last operation: %s)' % (r['name'], r['error'], (r['ops'] or [None])[-1]), explicit(sc, r))
             continue
         o = Oracle(sc, r, consts)
         for p, sig, text, i in o.run():
